@@ -135,6 +135,10 @@ def gen_cases(ctx):
         elif rng.random() < 0.15:
             # the empty pattern is a pattern too: it matches every name
             o["test"] = rng.choice([["t1 ", ""], ["", "t2 "], ["", "!t1 "], [""]])
+        if "pa.tests" in w["modules"] and rng.random() < 0.4:
+            # a directory under the search path that is also mapped into its package (--package-path): its files are
+            # reached twice and loaded once
+            o["pkgpath"] = "pa"
         if rng.random() < 0.25:
             # a relative search path, a test (in the first layer run) that leaves the process in another directory,
             # and a layer that cannot be torn down so that the rest is resumed in subprocesses
@@ -193,6 +197,11 @@ def shuffle_modes(ctx, n=None):
                         t.clear()
                         t.update(fresh)
                     break
+        if i % 2 == 1:
+            # a process that writes to its real stderr while it shuts down (after a layer subprocess's report)
+            t_ = rng.choice(w["tests"]) if w["tests"] else None
+            if t_ is not None and not t_.get("doctest"):
+                t_["setUp"]["atexit_fd2"] = rng.choice(["fixture-server: stopped\n", "bye\n", "2 leaked handles\n"])
         seed = rng.randint(0, 10 ** 6)
         jobs.append((i, w, seed, rng.choice([2, 3, 4]), rng.randint(0, 10 ** 6)))
 
